@@ -24,10 +24,17 @@ Case kinds (input["op"]):
            Imaging / Interferometer datasets -> KShare (machine of Model/C11s.v vs value semantics); each dataset vs a history-free twin.
   util     the solver / linear-algebra util functions called directly with caller-owned arrays (order, dtype, sign pattern of the solution
            varied): arguments unchanged, second call and call on private copies give the same bits (py_ok).
+  remask   Imaging built with EVERY optional constructor argument (noise covariance matrix, noise map omitted, psf None / not normalised,
+           use_normalized_psf, pad_for_convolver, check_noise_map, over-sampling) taken through chains of apply_mask (a then b: larger /
+           smaller / disjoint / equal) / trimming / over-sampling / noise scaling with reads in between: every derived dataset vs its
+           history-free twin on every attribute (at creation and at the end), covariance matrix vs an independent reference (py_ok).
+  determ   ~50 structure queries (zoomed_around_mask, extracted / resized / padded / trimmed arrays, mask derivations, grids, kernels)
+           evaluated three times on equal inputs with the heap dirtied by different patterns in between (bit-identical results
+           required); windows that leave the frame compared with an independent reference (outside = pad value) (py_ok).
 In EVERY stream: structural fingerprints of all caller-owned objects and of every default-argument object of the autoarray package
 (default_singletons); in the graph / reuse / fit streams additionally every value stored in the graph before a read keeps its bytes.
 """
-import sys, types, zlib, itertools, hashlib
+import sys, os, types, zlib, itertools, hashlib
 if "pylops" not in sys.modules:          # stand-in (pylops is not installed): lets Interferometer / TransformerDFT be built
     _p = types.ModuleType("pylops")
     _p.LinearOperator = type("LinearOperator", (object,), {"__init__": lambda self, *a, **k: None})
@@ -62,7 +69,7 @@ def _install_nn_stand_in():
     mod.natural_interpolation = natural_interpolation
     sys.modules[name] = mod
 _install_nn_stand_in()
-from harness.common import cz, cnat, cbool, clist, ctup, import_aa
+from harness.common import cz, cnat, cbool, clist, ctup, copt, import_aa
 
 ID = "C11"
 GEN = []
@@ -76,7 +83,11 @@ RULE = ("random histories (length <= 26) over Array2D / Grid2D / VectorYX2D / Ke
         "in-place kernel normalisation; random reads on the five quantity graphs of Model/C11g.v; random read orders (with sweeps) on "
         "inversions, fits, meshes and on inversions sharing parts; user edits; dataset derivations; seeded simulations under perturbed "
         "RNG states; histories of shared / partially specified / omitted OverSamplingDataset arguments over two or more datasets; util solver "
-        "functions on caller-owned arrays; directed inversions whose positive-only warm start has every parameter passive. A case is non-trivial if it contains at least one read after a derivation or a repeated read; distinct = distinct JSON input.")
+        "functions on caller-owned arrays; directed inversions whose positive-only warm start has every parameter passive; re-masking chains "
+        "(a then b: larger / smaller / disjoint / equal) with trimming / over-sampling / noise scaling on Imaging datasets built with every "
+        "optional constructor argument (noise covariance matrix ...), each dataset vs its history-free twin and vs independent references; "
+        "50 structure queries evaluated three times with the heap dirtied in between, on directed masks whose zoom / extraction window "
+        "leaves the frame. A case is non-trivial if it contains at least one read after a derivation or a repeated read; distinct = distinct JSON input.")
 EXHAUSTIVE = {}
 TRUSTED = ["hand-written heap/effect model coq/Model/C11.v (tied to /repo by this run: observations, changed names vs effect "
            "summaries and final contents are compared inside Coq)",
@@ -243,6 +254,233 @@ def stored_changed(before, objs):
     is deleted -- curvature_matrix after the in-place `+=` -- disappears, it is not reported)."""
     return leaves_changed(before, stored(objs))
 def stored(objs): return leaves(list(objs), "obj")
+
+# ----------------------------------------------------------------------------- heap poisoning (determinism of every query)
+def poison(v, extra=()):
+    """unrelated allocations that dirty the heap: blocks of every size up to 8 KiB (numpy's small-block cache and the allocator's
+    free lists hand the most recently freed block of a size to the next request of that size) are filled with a non-zero pattern and
+    freed.  A buffer obtained with np.empty / np.ndarray(shape) whose cells are not all assigned then shows the pattern; two calls
+    with equal inputs are poisoned with DIFFERENT patterns."""
+    junk = []
+    # numpy keeps 7 freed blocks per size (in bytes) below 1 KiB; above, the allocator serves a request from the smallest free chunk
+    for n, rep in itertools.chain(((n, 7) for n in range(8, 1024, 8)), ((n, 2) for n in range(1024, 8193, 256)), ((n, 4) for n in extra)):
+        n = int(n)
+        if n <= 0 or n > 2 ** 22: continue
+        for _ in range(rep):
+            if n % 8 == 0: a = np.empty(n // 8); a.fill(v)
+            else: a = np.empty(n, dtype=np.uint8); a.fill(0xA5)
+            junk.append(a)
+    del junk
+_ROLL = [0]
+def poison_next():
+    """before a read in the streams that compare an object with a twin: the heap pattern differs from read to read, so that a buffer
+    with unassigned cells (np.empty) shows different contents on the object and on its twin"""
+    _ROLL[0] += 1
+    poison(7.7 + _ROLL[0] * 1.25)
+def arr_sizes(fp):
+    out = set()
+    for k, v in fp.items():
+        if isinstance(v, tuple):
+            try: out.add(int(np.prod(v[1])) * np.dtype(v[2]).itemsize)
+            except Exception: pass      # noqa
+    return out
+def thrice(f, sizes=()):
+    """f evaluated three times on equal inputs, the heap dirtied with different patterns in between: [structural fingerprints]"""
+    out = []
+    for v in (7.7, -3.3e5, 1.0e-300):
+        poison(v, sizes)
+        try: r = f()
+        except Exception as e: r = ("raise", type(e).__name__)      # noqa
+        fp = leaves([r], "r")
+        sizes = set(sizes) | arr_sizes(fp)
+        out.append((fp, r))
+    return out
+
+# ----------------------------------------------------------------------------- structure queries: determinism, out-of-frame entries
+def zoom_region_ref(m):
+    """bounding box of the unmasked pixels, the shorter side extended symmetrically to (about) the longer one (Mask2D.zoom_region)"""
+    ys, xs = np.where(~m)
+    y0, y1, x0, x1 = int(ys.min()), int(ys.max()), int(xs.min()), int(xs.max())
+    yl, xl = y1 - y0, x1 - x0
+    if yl > xl: x1 += (yl - xl) // 2; x0 -= (yl - xl) // 2
+    elif xl > yl: y1 += (xl - yl) // 2; y0 -= (xl - yl) // 2
+    return y0, y1 + 1, x0, x1 + 1
+def window_ref(a, y0, y1, x0, x1, pad=0.0):
+    """the window [y0, y1) x [x0, x1) of a, entries outside the frame = pad (the docstring of extracted_array_2d_from: zeros)"""
+    out = np.full((max(y1 - y0, 0), max(x1 - x0, 0)), pad, dtype=float)
+    for i, y in enumerate(range(y0, y1)):
+        for j, x in enumerate(range(x0, x1)):
+            if 0 <= y < a.shape[0] and 0 <= x < a.shape[1]: out[i, j] = a[y, x]
+    return out
+def resized_ref(a, shape, pad=0.0):
+    cy, cx = a.shape[0] // 2, a.shape[1] // 2
+    y0, x0 = cy - shape[0] // 2, cx - shape[1] // 2
+    return window_ref(a, y0, y0 + shape[0], x0, x0 + shape[1], pad)
+def same_bits(a, b):
+    a, b = np.asarray(a, dtype=float), np.asarray(b, dtype=float)
+    return a.shape == b.shape and a.tobytes() == b.tobytes()
+
+def determ_queries(aa, inp, arr, mask, nat, mnd, kern):
+    """[(name, thunk, reference or None)]: the queries of one case (every thunk builds nothing but its result)"""
+    from autoarray.structures.arrays import array_2d_util as u
+    from autoarray.mask import mask_2d_util as mu
+    H, W = inp["shape"]; b = inp["buffer"]; ks = tuple(inp["kernel_shape"]); ns = tuple(inp["new_shape"])
+    y0, y1, x0, x1 = inp["window"]
+    masked_nat = np.where(mnd, 0.0, nat)
+    zr = zoom_region_ref(mnd)
+    grid = aa.Grid2D.from_mask(mask=mask)
+    q = [
+        ("zoomed_around_mask", lambda: arr.zoomed_around_mask(buffer=b),
+         lambda r: same_bits(r.native, window_ref(masked_nat, zr[0] - b, zr[1] + b, zr[2] - b, zr[3] + b))),
+        ("extent_of_zoomed_array", lambda: arr.extent_of_zoomed_array(buffer=b), None),
+        ("util.extracted_array_2d_from", lambda: u.extracted_array_2d_from(array_2d=nat, y0=y0, y1=y1, x0=x0, x1=x1),
+         lambda r: same_bits(r, window_ref(nat, y0, y1, x0, x1))),
+        ("util.resized_array_2d_from", lambda: u.resized_array_2d_from(array_2d=nat, resized_shape=ns),
+         lambda r: same_bits(r, resized_ref(nat, ns))),
+        ("util.resized_array_2d_from(pad)", lambda: u.resized_array_2d_from(array_2d=nat, resized_shape=ns, pad_value=inp["pad"]),
+         lambda r: same_bits(r, resized_ref(nat, ns, inp["pad"]))),
+        ("resized_from", lambda: arr.resized_from(new_shape=ns, mask_pad_value=inp["mask_pad"]),
+         lambda r: same_bits(r.native, np.where(resized_ref(mnd.astype(float), ns, float(inp["mask_pad"])) != 0.0, 0.0, resized_ref(masked_nat, ns)))),
+        ("padded_before_convolution_from", lambda: arr.padded_before_convolution_from(kernel_shape=ks, mask_pad_value=inp["mask_pad"]),
+         lambda r: same_bits(r.native, np.where(resized_ref(mnd.astype(float), (H + ks[0] - 1, W + ks[1] - 1), float(inp["mask_pad"])) != 0.0, 0.0,
+                                                 resized_ref(masked_nat, (H + ks[0] - 1, W + ks[1] - 1))))),
+        ("trimmed_after_convolution_from", lambda: arr.trimmed_after_convolution_from(kernel_shape=ks), None),
+        ("binned_across_rows", lambda: arr.binned_across_rows, None),
+        ("binned_across_columns", lambda: arr.binned_across_columns, None),
+        ("native", lambda: arr.native, lambda r: same_bits(r, masked_nat)),
+        ("slim", lambda: arr.slim, lambda r: same_bits(r, nat[~mnd])),
+        ("native_skip_mask", lambda: arr.native_skip_mask, None),
+        ("util.array_2d_native_from", lambda: u.array_2d_native_from(array_2d_slim=np.array(nat[~mnd]), mask_2d=mnd), lambda r: same_bits(r, masked_nat)),
+        ("util.array_2d_slim_from", lambda: u.array_2d_slim_from(array_2d_native=nat, mask_2d=mnd), lambda r: same_bits(r, nat[~mnd])),
+        ("mask.resized_from", lambda: mask.resized_from(new_shape=ns, pad_value=inp["mask_pad"]),
+         lambda r: same_bits(np.array(r), resized_ref(mnd.astype(float), ns, float(inp["mask_pad"])))),
+        ("mask.rescaled_from", lambda: mask.rescaled_from(rescale_factor=inp["rescale"]), None),
+        ("mask.zoom_region", lambda: list(mask.zoom_region), lambda r: [int(x) for x in r] == list(zr)),
+        ("mask.zoom_mask_unmasked", lambda: mask.zoom_mask_unmasked, None),
+        ("mask.trimmed_array_from", lambda: mask.trimmed_array_from(padded_array=aa.Array2D.no_mask(values=np.pad(nat, ((ks[0] // 2,) * 2, (ks[1] // 2,) * 2)), pixel_scales=1.0), image_shape=(H, W)), None),
+        ("mask.derive_mask.edge", lambda: mask.derive_mask.edge, None),
+        ("mask.derive_mask.border", lambda: mask.derive_mask.border, None),
+        ("mask.derive_mask.edge_buffed", lambda: mask.derive_mask.edge_buffed, None),
+        ("mask.derive_mask.blurring_from", lambda: mask.derive_mask.blurring_from(kernel_shape_native=ks), None),
+        ("mask.derive_mask.all_false", lambda: mask.derive_mask.all_false, None),
+        ("mask.derive_indexes.native_for_slim", lambda: mask.derive_indexes.native_for_slim, None),
+        ("mask.derive_indexes.edge_slim", lambda: mask.derive_indexes.edge_slim, None),
+        ("mask.derive_indexes.border_slim", lambda: mask.derive_indexes.border_slim, None),
+        ("mask.derive_indexes.masked_slim", lambda: mask.derive_indexes.masked_slim, None),
+        ("mask.derive_grid.edge", lambda: mask.derive_grid.edge, None),
+        ("mask.derive_grid.border", lambda: mask.derive_grid.border, None),
+        ("mask.derive_grid.all_false", lambda: mask.derive_grid.all_false, None),
+        ("mask.derive_grid.unmasked", lambda: mask.derive_grid.unmasked, None),
+        ("mask.mask_centre", lambda: mask.mask_centre, None),
+        ("mask.shape_native_masked_pixels", lambda: mask.shape_native_masked_pixels, None),
+        ("util.buffed_mask_2d_from", lambda: mu.buffed_mask_2d_from(mask_2d=mnd, buffer=b), None),
+        ("util.rescaled_mask_2d_from", lambda: mu.rescaled_mask_2d_from(mask_2d=mnd, rescale_factor=inp["rescale"]), None),
+        ("util.blurring_mask_2d_from", lambda: mu.blurring_mask_2d_from(mask_2d=mnd, kernel_shape_native=ks), None),
+        ("grid.padded_grid_from", lambda: grid.padded_grid_from(kernel_shape_native=ks), None),
+        ("grid.blurring_grid_from", lambda: aa.Grid2D.blurring_grid_from(mask=mask, kernel_shape_native=ks), None),
+        ("grid.native", lambda: grid.native, None),
+        ("grid.flipped", lambda: grid.flipped, None),
+        ("grid.distances_to_coordinate_from", lambda: grid.distances_to_coordinate_from(coordinate=(0.5, -0.25)), None),
+        ("grid.grid_2d_radial_projected_from", lambda: grid.grid_2d_radial_projected_from(centre=(0.0, 0.0), angle=30.0), None),
+        ("grid.over_sampler.binned_array_2d_from", lambda: aa.OverSamplerUniform(mask=mask, sub_size=2).binned_array_2d_from(
+            array=np.arange(4.0 * int((~mnd).sum()))), None),
+        ("kernel.convolved_array_from", lambda: kern.convolved_array_from(array=arr), None),
+        ("kernel.convolved_array_with_mask_from", lambda: kern.convolved_array_with_mask_from(array=arr.native, mask=mask), None),
+        ("kernel.normalized", lambda: kern.normalized, None),
+        ("arith", lambda: arr * 2.0 - arr, None),
+        ("unmasked_blurred_array_from", lambda: mask.unmasked_blurred_array_from(
+            padded_array=arr.padded_before_convolution_from(kernel_shape=ks), psf=kern, image_shape=(H, W)), None),
+    ]
+    return q
+
+def run_determ(inp):
+    aa = import_aa()
+    H, W = inp["shape"]
+    mnd = np.array(inp["mask"], dtype=bool)
+    dt = {"float": float, "int": np.int64, "float32": np.float32}[inp.get("dtype", "float")]
+    nat = np.array(inp["values"], dtype=dt).reshape(H, W)
+    if inp.get("fortran"): nat = np.asfortranarray(nat)
+    mask = aa.Mask2D(mask=mnd, pixel_scales=inp.get("ps", 1.0))
+    arr = aa.Array2D(values=nat, mask=mask, store_native=inp.get("store_native", False))
+    kv = np.array(inp["kernel"], dtype=float).reshape(inp["kernel_shape"])
+    kern = aa.Kernel2D.no_mask(values=kv, pixel_scales=inp.get("ps", 1.0))
+    owned = [mnd, nat, mask, arr, kv, kern]
+    w = Watch(owned)
+    qs = determ_queries(aa, inp, arr, mask, nat, mnd, kern)
+    names = [n for n, _, _ in qs]
+    bad = []; n_ref = 0; n_raise = 0
+    for name in inp["queries"]:
+        _, f, ref = qs[names.index(name)]
+        before = stored(owned)
+        runs = thrice(f, {nat.nbytes, mnd.nbytes})
+        for k in (1, 2):
+            if runs[k][0] != runs[0][0]:
+                d = [p for p in runs[0][0] if runs[k][0].get(p) != runs[0][0][p]] + [p for p in runs[k][0] if p not in runs[0][0]]
+                bad.append(f"{name}: call {k + 1} with equal inputs differs from call 1 at {d[:2]}")
+        r = runs[0][1]
+        if isinstance(r, tuple) and len(r) == 2 and r[0] == "raise": n_raise += 1; tally(f"determ: {name} raises {r[1]}")
+        elif ref is not None:
+            n_ref += 1
+            for k in (0, 2):
+                try: ok = ref(runs[k][1])
+                except Exception as e: ok = False; bad.append(f"{name}: reference raised {type(e).__name__}")    # noqa
+                if not ok: bad.append(f"{name}: call {k + 1} differs from the reference (entries outside the frame are the pad value, inside the array's)")
+        ch = stored_changed(before, owned)
+        if ch: bad.append(f"{name} changed a stored value: " + ",".join(ch[:3]))
+    bad += w.bad()
+    tally("determ: queries", len(inp["queries"])); tally("determ: with reference", n_ref); tally("determ: raising (3x the same exception)", n_raise)
+    zr = zoom_region_ref(mnd); b = inp["buffer"]
+    out_of_frame = zr[0] - b < 0 or zr[2] - b < 0 or zr[1] + b > H or zr[3] + b > W
+    if out_of_frame: tally("determ: zoom window leaves the frame")
+    res = {"coq": None, "out": {"queries": len(inp["queries"]), "bad": bad[:5]}, "py_ok": not bad, "nontrivial": out_of_frame or len(inp["queries"]) >= 3,
+           "kind": "determ" + (":out-of-frame" if out_of_frame else "")}
+    if bad: res["detail"] = "; ".join(bad[:5])
+    return res
+
+DETERM_Q = None
+def gen_determ(rng, k):
+    global DETERM_Q
+    H, W = rng.randint(3, 9), rng.randint(3, 9)
+    if k % 5 == 0: H, W = rng.choice([(1, rng.randint(3, 8)), (rng.randint(3, 8), 1), (3, 11), (11, 3), (2, 2)])
+    style = rng.choice(["rect", "rect", "rect-edge", "elongated-edge", "random", "single", "all-false"])
+    m = [[True] * W for _ in range(H)]
+    if style == "random": m = rand_mask(rng, H, W, p=rng.choice([0.2, 0.5, 0.8]))
+    elif style == "all-false": m = [[False] * W for _ in range(H)]
+    elif style == "single": m[rng.randrange(H)][rng.randrange(W)] = False
+    else:
+        if style == "elongated-edge":      # a thin unmasked strip next to a frame edge: the squared zoom region leaves the frame
+            if rng.random() < 0.5 or W < 3: ya = rng.choice([0, H - 1]); yb = ya; xa, xb = 0, W - 1
+            else: xa = rng.choice([0, W - 1]); xb = xa; ya, yb = 0, H - 1
+        else:
+            ya = rng.randrange(H); yb = rng.randint(ya, H - 1); xa = rng.randrange(W); xb = rng.randint(xa, W - 1)
+            if style == "rect-edge":
+                e = rng.choice("NSWE")
+                if e == "N": ya = 0
+                if e == "S": yb = H - 1
+                if e == "W": xa = 0
+                if e == "E": xb = W - 1
+        for y in range(ya, yb + 1):
+            for x in range(xa, xb + 1): m[y][x] = rng.random() < 0.1
+        m[ya][xa] = False; m[yb][xb] = False
+    kh, kw = rng.choice([(3, 3), (3, 3), (1, 1), (3, 5), (5, 3), (1, 3)])
+    y0 = rng.randint(-3, H); x0 = rng.randint(-3, W)
+    inp = {"op": "determ", "shape": [H, W], "mask": m, "values": [rng.choice([rng.randint(-9, 20), rng.randint(1, 99) / 8.0, 0, 1e-9, 3e11]) for _ in range(H * W)],
+           "dtype": rng.choice(["float"] * 4 + ["int", "float32"]), "fortran": rng.random() < 0.2, "store_native": rng.random() < 0.4,
+           "ps": rng.choice([1.0, 1.0, 0.5, [1.0, 2.0]]), "buffer": rng.choice([0, 1, 1, 1, 2, 3]), "kernel_shape": [kh, kw],
+           "kernel": [rng.randint(0, 4) for _ in range(kh * kw - 1)] + [1], "new_shape": [rng.randint(1, H + 4), rng.randint(1, W + 4)],
+           "pad": rng.choice([0.0, 1.0, -2.5]), "mask_pad": rng.choice([0, 0, 1]), "rescale": rng.choice([0.5, 2.0, 1.5]),
+           "window": [y0, rng.randint(y0, H + 3), x0, rng.randint(x0, W + 3)]}
+    if inp["dtype"] == "int": inp["values"] = [int(v) if abs(v) < 1e9 else 7 for v in inp["values"]]
+    if DETERM_Q is None:
+        aa = import_aa()
+        z = np.zeros((3, 3), bool)
+        probe = dict(inp, shape=[3, 3], mask=z.tolist(), values=[1.0] * 9, kernel_shape=[1, 1], kernel=[1])
+        mk = aa.Mask2D(mask=z, pixel_scales=1.0)
+        DETERM_Q = [n for n, _, _ in determ_queries(aa, probe, aa.Array2D(values=np.ones((3, 3)), mask=mk), mk, np.ones((3, 3)), z,
+                                                    aa.Kernel2D.no_mask(values=np.ones((1, 1)), pixel_scales=1.0))]
+    head = ["zoomed_around_mask", "util.extracted_array_2d_from", "resized_from", "padded_before_convolution_from"]
+    inp["queries"] = rng.sample(head, 2) + rng.sample(DETERM_Q, rng.randint(4, 9))
+    return inp
 
 # ----------------------------------------------------------------------------- kinds
 SUB = 2
@@ -921,6 +1159,7 @@ def graph_target(parts, who):
     if who.startswith("mapper"): return mappers[int(who[6:]) % len(mappers)]
     raise ValueError(who)
 def graph_read(parts, who, name):
+    poison_next()
     try:
         v = getattr(graph_target(parts, who), name)
         if name == "neighbors": v = [v, getattr(v, "sizes", None)]
@@ -968,6 +1207,7 @@ def run_graph(inp):
 # ----------------------------------------------------------------------------- dataset derivations (Python-side relation)
 DS_VIEWS = {"grids": view_grids, "convolver": view_convolver, "w_tilde": view_w_tilde}
 def ds_read(ds, name):
+    poison_next()
     try:
         v = getattr(ds, name)
         return DS_VIEWS[name](v) if name in DS_VIEWS else enc_val(v)
@@ -1013,6 +1253,311 @@ def run_dsderive(inp):
            "kind": "dsderive:" + "+".join(d["how"] for d in inp["derivs"])}
     if bad: res["detail"] = "; ".join(bad[:4])
     return res
+
+# ----------------------------------------------------------------------------- re-masking chains on FULLY specified datasets
+# Imaging with every optional constructor argument (noise covariance matrix, noise map omitted, psf None / un-normalised,
+# use_normalized_psf, pad_for_convolver, check_noise_map, over-sampling explicit / omitted); chains of apply_mask (a then b: larger,
+# smaller, disjoint, equal), trimming, over-sampling and noise scaling with reads in between.  Every derived dataset is compared on
+# EVERY attribute with its history-free twin (a fresh dataset taken through the CANONICAL chain: a re-masking goes back to the
+# unmasked dataset, so the masks applied before it do not count), at creation and again at the end of the history; and the noise
+# covariance matrix of every masked dataset is compared with an independent reference (rows / columns of the unmasked pixels of ITS
+# mask, of the matrix the caller gave).
+RM_READS = ["data", "noise_map", "noise_covariance_matrix", "noise_covariance_matrix_inv", "psf", "grids", "convolver", "w_tilde",
+            "signal_to_noise_map", "signal_to_noise_max", "mask", "shape_native", "pixel_scales", "grid"]
+RM_APPROX = ("psf", "convolver", "w_tilde")
+def rm_floats(x, out):
+    """the float arrays reachable from a kernel / convolver / w-tilde object (compared with a tolerance: see rm_view)"""
+    from autoarray.abstract_ndarray import AbstractNDArray
+    if isinstance(x, AbstractNDArray): out.append(np.array(x._array, dtype=float)); return
+    if isinstance(x, np.ndarray):
+        if x.dtype != object: out.append(np.array(x, dtype=float))
+        return
+    if isinstance(x, (int, float, np.generic)): out.append(np.array([float(x)])); return
+    d = getattr(x, "__dict__", None)
+    if isinstance(d, dict):
+        for k in sorted(d):
+            if isinstance(d[k], (np.ndarray, AbstractNDArray, int, float, np.generic)) and k != "mask": rm_floats(d[k], out)
+def rm_view(ds):
+    """every public quantity of an Imaging dataset (plain attributes, properties, cached properties), and of its `unmasked`.
+    -> (exact, approx): apply_mask hands the dataset's (already normalised) psf to the Imaging constructor, which normalises it
+    again: the kernel of a twice-masked dataset may differ from the once-masked twin's in the last bit (x / s with s = 1 +- 1 ulp) --
+    psf, convolver and w_tilde are therefore compared to a relative 1e-12 (same shapes), everything else bit for bit."""
+    out = {}; approx = {}
+    for n in RM_READS:
+        try:
+            v = getattr(ds, n)
+            if n in RM_APPROX:
+                fl = []; rm_floats(v, fl); approx[n] = fl
+                out[n] = [NAN + 3] if v is None else [list(a.shape) for a in fl]
+            else: out[n] = DS_VIEWS[n](v) if n in DS_VIEWS else enc_val(v)
+        except Exception as e: out[n] = exc_code(e)      # noqa
+    try: out["over_sampling"] = os_record(ds.over_sampling)
+    except Exception as e: out["over_sampling"] = exc_code(e)     # noqa
+    out["flags"] = [repr(getattr(ds, "pad_for_convolver", None)), repr(getattr(ds, "use_normalized_psf", None))]
+    u = getattr(ds, "unmasked", None)
+    out["unmasked"] = [NAN + 3] if u is None else [enc_val(u.data), enc_val(u.noise_map), enc_val(u.noise_covariance_matrix), os_record(u.over_sampling)]
+    if u is not None: fl = []; rm_floats(u.psf, fl); approx["unmasked.psf"] = fl
+    return out, approx
+def rm_close(a, b):
+    return len(a) == len(b) and all(x.shape == y.shape and np.allclose(x, y, rtol=1e-12, atol=0.0, equal_nan=True) for x, y in zip(a, b))
+def rm_base(cfg, owned):
+    aa = import_aa()
+    H, W = cfg["shape"]; N = H * W
+    ps = cfg.get("ps", 1.0)
+    dv = np.array(cfg["data"], dtype=float).reshape(H, W)
+    m0 = aa.Mask2D.all_false(shape_native=(H, W), pixel_scales=ps)
+    data = aa.Array2D(values=dv, mask=m0, store_native=cfg.get("native", False))
+    owned += [dv, data, m0]
+    kw = {}
+    if cfg.get("noise") is not None:
+        nv = np.array(cfg["noise"], dtype=float).reshape(H, W)
+        noise = aa.Array2D(values=nv, mask=m0, store_native=cfg.get("native", False))
+        owned += [nv, noise]
+    else: noise = None
+    if cfg.get("cov") is not None:
+        c = cfg["cov"]
+        cov = np.zeros((N, N))
+        for i in range(N):
+            cov[i, i] = c["diag"][i]
+            for d, v in zip((1, W), c["off"]):
+                if i + d < N: cov[i, i + d] = cov[i + d, i] = v * (1 + (i % 3))
+        if c.get("dtype") == "int": cov = np.round(cov * 8).astype(np.int64)
+        if c.get("fortran"): cov = np.asfortranarray(cov)
+        kw["noise_covariance_matrix"] = cov; owned.append(cov)
+    if cfg.get("psf") is not None:
+        pv = np.array(cfg["psf"]["v"], dtype=float).reshape(cfg["psf"]["shape"])
+        psf = aa.Kernel2D.no_mask(values=pv, pixel_scales=ps)
+        owned += [pv, psf]
+    else: psf = None
+    if cfg.get("os") is not None:
+        osd = mk_os(cfg["os"]); owned.append(osd); kw["over_sampling"] = osd
+    for k in ("pad_for_convolver", "use_normalized_psf", "check_noise_map"):
+        if k in cfg: kw[k] = cfg[k]
+    return aa.Imaging(data=data, noise_map=noise, psf=psf, **kw)
+def rm_step(ds, st, cfg, owned):
+    aa = import_aa()
+    how = st["how"]
+    if how == "trim": return ds.trimmed_after_convolution_from(kernel_shape=tuple(st["kernel_shape"]))
+    if how == "over_sampling":
+        if st.get("os") is None: return ds.apply_over_sampling()
+        osd = mk_os(st["os"]); owned.append(osd)
+        return ds.apply_over_sampling(over_sampling=osd)
+    m2 = np.array(st["mask"], dtype=bool)
+    mask2 = aa.Mask2D(mask=m2, pixel_scales=cfg.get("ps", 1.0))
+    owned += [m2, mask2]
+    if how == "mask": return ds.apply_mask(mask=mask2)
+    if how == "noise_scaling": return ds.apply_noise_scaling(mask=mask2, noise_value=st.get("noise_value", 1.0e8), signal_to_noise_value=st.get("snr"))
+    raise ValueError(how)
+def rm_twin(cfg, chain):
+    """the history-free twin: a fresh dataset from fresh arrays taken through [chain], nothing read on the way"""
+    owned = []
+    ds = rm_base(cfg, owned)
+    for st in chain: ds = rm_step(ds, st, cfg, owned)
+    return ds
+def rm_cov_ref(cfg, mask):
+    """rows / columns of the caller's covariance matrix at the unmasked pixels of [mask] (row-major)"""
+    o = []
+    cov = rm_base(dict(cfg, psf=None), o).noise_covariance_matrix
+    idx = [i for i, b in enumerate(np.array(mask, dtype=bool).ravel()) if not b]
+    return np.array(cov)[np.ix_(idx, idx)]
+
+def run_remask(inp):
+    cfg = inp["cfg"]
+    owned = []
+    bad = []
+    poison(7.7)
+    try: ds0 = rm_base(cfg, owned)
+    except Exception as e:      # noqa   (a configuration the constructor rejects: the twin must reject it too)
+        try: rm_base(cfg, []); bad.append("constructor raised once, not twice")
+        except Exception as e2:      # noqa
+            if type(e2) is not type(e): bad.append("constructor raised different exceptions on equal inputs")
+        tally(f"remask: constructor rejects the configuration ({type(e).__name__})")
+        if os.environ.get("C11_DEBUG"): print("REJECT", repr(e)[:300], {k: v for k, v in cfg.items() if k not in ("data", "noise", "cov")})
+        return {"coq": None, "out": {"bad": bad}, "py_ok": not bad, "nontrivial": False, "kind": "remask:rejected", **({"detail": bad[0]} if bad else {})}
+    w = Watch(owned)
+    # nodes: (dataset, canonical chain, chain of its `unmasked` dataset or None, current mask is all false, label)
+    nodes = [(ds0, [], None, True, "ds0")]
+    n_remask = 0; n_cmp = 0
+    def compare(i, when):
+        nonlocal n_cmp
+        ds, chain, _, _, label = nodes[i]
+        poison(-3.3e5)
+        try: tw = rm_twin(cfg, chain)
+        except Exception as e:      # noqa
+            bad.append(f"{label} ({when}): the history-free twin cannot be built ({type(e).__name__})"); return
+        poison(1.0e-300)
+        (a, ax), (b, bx) = rm_view(ds), rm_view(tw)
+        n_cmp += 1
+        for k in a:
+            if a[k] != b[k]: bad.append(f"{label} ({when}): `{k}` differs from the history-free twin {[s['how'] for s in chain]}")
+        for k in set(ax) | set(bx):
+            if k not in ax or k not in bx or not rm_close(ax[k], bx[k]):
+                bad.append(f"{label} ({when}): `{k}` differs (beyond 1e-12) from the history-free twin {[s['how'] for s in chain]}")
+        # independent references (not through a twin): a dataset's quantities follow from its own mask and the caller's arrays
+        hows = [s["how"] for s in chain]
+        last = [s for s in chain if s["how"] == "mask"]
+        if cfg.get("cov") is not None and "over_sampling" not in hows:      # apply_over_sampling does not carry the matrix (present behaviour)
+            got = getattr(ds, "noise_covariance_matrix", None)
+            ref = rm_cov_ref(cfg, last[-1]["mask"] if last else np.zeros(cfg["shape"], bool))
+            if got is None or np.shape(got) != ref.shape or not np.array_equal(np.asarray(got, dtype=float), ref.astype(float)):
+                bad.append(f"{label} ({when}): noise_covariance_matrix (shape {np.shape(got)}) is not the caller's matrix restricted to the "
+                           f"{ref.shape[0]} unmasked pixels of the dataset's own mask")
+        # no derivation changes the kernel: it is the caller's (normalised unless use_normalized_psf=False), the flag is the caller's
+        try:
+            want_norm = cfg.get("use_normalized_psf", True)
+            if getattr(ds, "use_normalized_psf", None) is not want_norm and "use_normalized_psf" in ds.__dict__:
+                bad.append(f"{label} ({when}): use_normalized_psf is {ds.use_normalized_psf!r}, the source dataset was built with {want_norm!r}")
+            if cfg.get("psf") is None:
+                if ds.psf is not None: bad.append(f"{label} ({when}): a psf appeared")
+            else:
+                pv = np.array(cfg["psf"]["v"], dtype=float).reshape(cfg["psf"]["shape"])
+                if want_norm: pv = pv / pv.sum()
+                if ds.psf is None or not rm_close([np.array(ds.psf.native._array, dtype=float)], [pv]):
+                    bad.append(f"{label} ({when}): psf is not the caller's kernel" + (" normalised" if want_norm else " as given (use_normalized_psf=False)"))
+        except Exception as e: bad.append(f"{label} ({when}): reading psf raised {type(e).__name__}")     # noqa
+        if hows == ["mask"] or hows == []:
+            H, W = cfg["shape"]
+            mk = np.array(last[-1]["mask"], dtype=bool) if last else np.zeros((H, W), bool)
+            try:
+                if tuple(ds.data.shape_native) == (H, W):       # not padded
+                    refs = [("data", np.array(cfg["data"], dtype=float).reshape(H, W))]
+                    if cfg.get("noise") is not None: refs.append(("noise_map", np.array(cfg["noise"], dtype=float).reshape(H, W)))
+                    for nm_, full in refs:
+                        x = getattr(ds, nm_)
+                        if not (same_bits(x.native, np.where(mk, 0.0, full)) and same_bits(x.slim, full[~mk]) and np.array_equal(np.array(x.mask), mk)):
+                            bad.append(f"{label} ({when}): `{nm_}` is not the caller's array under the dataset's own mask")
+            except Exception as e: bad.append(f"{label} ({when}): reading data / noise_map raised {type(e).__name__}")     # noqa
+    # PART F (Model/C11r.v): chains of apply_mask / looks only, on a dataset whose own mask is all false -> KRemask, evaluated in Coq
+    modelled = bool(inp.get("pure")) and all(st["how"] in ("mask", "read") for st in inp["steps"]) and cfg.get("pad_for_convolver") is not True
+    cidx = {0: 0}; cops = []; couts = []       # node index -> index among the datasets that exist (a derivation that raises makes none)
+    def cview(ds):
+        c = getattr(ds, "noise_covariance_matrix", None)
+        return "(ROk " + carr(enc_arr(ds.data.slim)) + " " + copt(c, lambda m: clist([carr(enc_arr(r)) for r in np.asarray(m)])) + ")"
+    for st in inp["steps"]:
+        if len(bad) > 6: modelled = False; break
+        if st["how"] == "read":
+            if nodes[st["d"]] is None: continue
+            ds = nodes[st["d"]][0]
+            for q in st["q"]:
+                try: getattr(ds, q)
+                except Exception: pass      # noqa
+            if modelled: cops.append(f"(RPeek {cnat(cidx[st['d']])})"); couts.append(cview(ds))
+            continue
+        if modelled and nodes[st["d"]] is not None:
+            cops.append(f"(RMask {cnat(cidx[st['d']])} {cmask(np.array(st['mask'], dtype=bool).ravel())})")
+            couts.append(None)       # filled below: what the derived dataset reports, or RRaise
+        if nodes[st["d"]] is None: nodes.append(None); continue       # derived from a dataset whose derivation raised
+        ds, chain, unm, allfalse, label = nodes[st["d"]]
+        step = {k: v for k, v in st.items() if k != "d"}
+        how = st["how"]
+        # the canonical (history-free) chain of the result: a re-masking goes back to the `unmasked` dataset
+        if how == "mask":
+            base = chain if allfalse else unm
+            meta = (list(base) + [step] if base is not None else None, None if base is None else list(base),
+                    not np.array(st["mask"], dtype=bool).any(), f"{label}.mask")
+        elif how == "trim": meta = (chain + [step], unm, allfalse, f"{label}.trim")
+        else: meta = (chain + [step], None, allfalse, f"{label}.{how}")
+        try: new = rm_step(ds, step, cfg, owned)
+        except Exception as e:      # noqa
+            # the history-free twin of the result must fail in the same way (no `unmasked` dataset to go back to: nothing to compare)
+            nb = len(bad)
+            if meta[0] is not None:
+                try: rm_twin(cfg, meta[0]); bad.append(f"{how} on {label} raised {type(e).__name__}; the history-free twin {[s['how'] for s in meta[0]]} is built without error")
+                except Exception as e2:      # noqa
+                    if type(e2) is not type(e): bad.append(f"{how} on {label} raised {type(e).__name__}, the history-free twin {type(e2).__name__}")
+            tally(f"remask: {how} raises {type(e).__name__}" + (" (the source has no `unmasked`)" if meta[0] is None else " (so does the twin)" if len(bad) == nb else " (the twin does not)"))
+            if os.environ.get("C11_DEBUG"): print("RAISE", how, label, repr(e)[:300], {k: v for k, v in cfg.items() if k not in ("data", "noise", "cov")})
+            if modelled: couts[-1] = "RRaise"
+            nodes.append(None); continue
+        if modelled: cidx[len(nodes)] = len(cidx); couts[-1] = cview(new)
+        if how == "mask" and not allfalse: n_remask += 1
+        if meta[0] is None: nodes.append(None); continue       # cannot happen: re-masking without `unmasked` raises
+        node = (new,) + meta
+        nodes.append(node)
+        compare(len(nodes) - 1, "at creation")
+    for i in range(len(nodes)):
+        if nodes[i] is not None: compare(i, "at the end")
+    bad += w.bad()
+    tally("remask: re-masking of an already masked dataset", n_remask); tally("remask: datasets compared with a history-free twin", n_cmp)
+    if cfg.get("cov") is not None: tally("remask: datasets with a noise covariance matrix")
+    coq = None
+    if modelled and cops:
+        cov0 = next((o for o in owned if isinstance(o, np.ndarray) and o.ndim == 2 and o.shape == (len(cfg["data"]),) * 2), None) if cfg.get("cov") is not None else None
+        coq = (f"(KRemask {carr(enc_arr(np.array(cfg['data'], dtype=float)))} {copt(cov0, lambda m: clist([carr(enc_arr(r)) for r in m]))} "
+               f"{clist(cops)} {clist(couts)})")
+        tally("remask: KRemask cases (machine of Model/C11r.v vs value semantics, in Coq)")
+    res = {"coq": coq, "out": {"nodes": len(nodes), "remask": n_remask, "bad": bad[:5]}, "py_ok": not bad, "nontrivial": n_remask > 0,
+           "kind": "remask" + (":cov" if cfg.get("cov") is not None else "") + (":again" if n_remask else "")}
+    if bad: res["detail"] = "; ".join(bad[:5])
+    return res
+
+def rm_mask(rng, H, W, border, style, prev=None):
+    """masks for re-masking chains: relative to [prev] larger / smaller / disjoint / equal, else a random region; [border] outer rings
+    are always masked (border >= 2 keeps a masked ring through a 3x3 trimming and the blurring region inside the frame)"""
+    ins = [(y, x) for y in range(border, H - border) for x in range(border, W - border)]
+    if prev is not None and style != "random":
+        pu = [p for p in ins if not prev[p[0]][p[1]]]; pm = [p for p in ins if prev[p[0]][p[1]]]
+        if style == "equal": un = pu
+        elif style == "smaller": un = rng.sample(pu, max(1, len(pu) // 2))
+        elif style == "larger": un = pu + rng.sample(pm, (len(pm) + 1) // 2)
+        else: un = pm if pm else pu      # disjoint
+    else: un = [p for p in ins if rng.random() < rng.choice([0.3, 0.6, 0.9])]
+    if not un: un = [ins[len(ins) // 2]]
+    m = [[True] * W for _ in range(H)]
+    for (y, x) in un: m[y][x] = False
+    return m
+def gen_remask(rng, k):
+    H, W = rng.randint(5, 8), rng.randint(5, 8)
+    if k % 2 == 0: H, W = rng.randint(4, 6), rng.randint(4, 6)      # the KRemask cases carry the whole matrix into Coq: keep them small
+    N = H * W
+    border = min(rng.choice([0, 1, 2, 2, 2]), (min(H, W) - 1) // 2)
+    cfg = {"shape": [H, W], "data": [rng.choice([rng.randint(0, 20), rng.randint(1, 99) / 8.0]) for _ in range(N)],
+           "noise": [rng.choice([1, 2, 4, 0.5]) for _ in range(N)], "native": rng.random() < 0.4, "ps": rng.choice([1.0, 1.0, 0.5])}
+    if k % 4 != 3:
+        cfg["cov"] = {"diag": [rng.choice([4, 5, 6, 8.5]) for _ in range(N)], "off": [rng.choice([0, 0.25, -0.5]), rng.choice([0, 0.125])],
+                      "dtype": rng.choice(["float", "float", "float", "int"]), "fortran": rng.random() < 0.2}
+        if rng.random() < 0.25: cfg["noise"] = None       # the noise map is then the diagonal of the covariance matrix
+    r = rng.random()
+    if r < 0.15: cfg["psf"] = None
+    elif r < 0.6: cfg["psf"] = {"shape": [3, 3], "v": [rng.randint(0, 3) for _ in range(8)] + [1]}
+    elif r < 0.8: cfg["psf"] = {"shape": list(rng.choice([(3, 5), (5, 3), (1, 3)])), "v": None}
+    else: cfg["psf"] = {"shape": [3, 3], "v": [0, 0.125, 0, 0.125, 0.5, 0.125, 0, 0.125, 0]}
+    if cfg["psf"] and cfg["psf"]["v"] is None:
+        cfg["psf"]["v"] = [rng.randint(0, 3) for _ in range(cfg["psf"]["shape"][0] * cfg["psf"]["shape"][1] - 1)] + [2]
+    if rng.random() < 0.7: cfg["os"] = [rng.choice([0, 1, 2]), rng.choice([0, 0, 2]), rng.choice([0, 1, 2])]
+    if rng.random() < 0.4: cfg["use_normalized_psf"] = rng.choice([False, False, True])
+    pure = k % 2 == 0        # apply_mask / looks only: the chains Model/C11r.v speaks about
+    if rng.random() < 0.25: cfg["pad_for_convolver"] = (rng.random() < 0.3) and not pure     # True pads (and masks) unmasked data: apply_mask then has no `unmasked`
+    if rng.random() < 0.3: cfg["check_noise_map"] = rng.choice([True, False])
+    trim_ok = border >= 2 and cfg["psf"] is not None
+    steps = []; nodes = [{"allfalse": True, "masked": False, "mask": None, "dead": False}]   # dead: `unmasked` lost (over-sampling / noise scaling)
+    if rng.random() < 0.2 and not pure:
+        steps.append({"how": "noise_scaling", "d": 0, "mask": rm_mask(rng, H, W, max(border, 1), "random"), **({"snr": 2.0} if rng.random() < 0.5 else {})})
+        nodes.append({"allfalse": True, "masked": False, "mask": None, "dead": False})
+    if rng.random() < 0.3 and not pure:
+        steps.append({"how": "over_sampling", "d": len(nodes) - 1, "os": rng.choice([None, [2, 0, 0], [0, 0, 2], [1, 2, 1]])})
+        nodes.append({"allfalse": True, "masked": False, "mask": None, "dead": False})
+    n_mask = 0
+    for _ in range(rng.randint(3, 7)):
+        live = [i for i, n in enumerate(nodes) if not n["dead"]]
+        d = rng.choice(live[-3:])
+        n = nodes[d]
+        r = rng.random()
+        if r < 0.25:
+            steps.append({"how": "read", "d": rng.randrange(len(nodes)), "q": rng.sample(RM_READS, rng.randint(1, 4))})
+        elif r < 0.8 or n_mask < 2 or pure:
+            if n.get("trimmed") and n["allfalse"]: continue
+            style = rng.choice(["larger", "smaller", "disjoint", "equal", "random"])
+            m = rm_mask(rng, H, W, border, style, n["mask"])
+            steps.append({"how": "mask", "d": d, "mask": m}); n_mask += 1
+            nodes.append({"allfalse": not any(any(row) for row in m), "masked": True, "mask": m, "dead": False})
+        elif r < 0.9 and trim_ok and not n.get("trimmed"):
+            steps.append({"how": "trim", "d": d, "kernel_shape": [3, 3]})
+            nodes.append(dict(n, trimmed=True))
+        else:
+            steps.append({"how": "over_sampling", "d": d, "os": rng.choice([None, [2, 0, 0], [0, 0, 2]])})
+            nodes.append(dict(n, dead=n["masked"]))
+    return {"op": "remask", "cfg": cfg, "steps": steps, "pure": pure}
 
 # ----------------------------------------------------------------------------- object REUSE: shared parts, several inversions
 def build_reuse(inp, only=None):
@@ -1172,6 +1717,7 @@ EDIT_Q = {"array": KINDS["array"].plain + ["in_counts"], "kernel": KINDS["kernel
           "mask": KINDS["mask"].plain + ["circular_radius", "native_for_slim", "edge", "unmasked_grid"],
           "dataset": ["signal_to_noise_map", "signal_to_noise_max", "data", "noise_map"]}
 def edit_read(kind, obj, name):
+    poison_next()
     try:
         if name == "native_for_slim": return enc_val(obj.derive_indexes.native_for_slim)
         if name == "edge": return enc_val(obj.derive_mask.edge)
@@ -1312,6 +1858,7 @@ def build_fit(cfg):
     return fit, ds, mappers, owned + [dm]
 def fit_read(parts, who, name):
     fit, ds, mappers = parts
+    poison_next()
     if who == "fit":
         try:
             v = getattr(fit, name)
@@ -1406,6 +1953,7 @@ def build_mesh_graph(cfg):
     owned = [m, pts, vals, pm, dv, nv, pv, mask, grid, data, noise, psf, osd, settings]
     return {"mesh": mesh, "mapper": mapper, "valued": valued, "inv": inv}, owned
 def mesh_read(parts, who, name, cfg):
+    poison_next()
     try:
         t = parts[who]
         if name == "interp":
@@ -1592,6 +2140,7 @@ def gencode(v, name):
     try: return enc_val(v)
     except TypeError: return [zlib.crc32(repr(sorted((k, str(x)) for k, x in leaves(v, "v").items())).encode())]
 def gread_node(parts, node, cfg):
+    poison_next()
     try: return digest(gencode(gvalue(parts, node, cfg), node[1]))
     except Exception as e:   # noqa
         return digest(exc_code(e))
@@ -1728,7 +2277,10 @@ def util_args(inp):
     if f == "mapped_recon": return {"mapping_matrix": mk(B), "reconstruction": mk(sv)}
     if f == "data_vector": return {"blurred_mapping_matrix": mk(B), "image": mk(inp["image"]), "noise_map": mk(inp["noise"])}
     nb = np.array([[(i - 1) % n, (i + 1) % n] for i in range(n)], dtype=np.int64, order=inp["order"])      # a ring of pixels
-    if f == "reg_constant": return {"neighbors": nb, "neighbors_sizes": np.full(n, 2, dtype=np.int64)}
+    if f in ("reg_constant", "reg_constant_zeroth"): return {"neighbors": nb, "neighbors_sizes": np.full(n, 2, dtype=np.int64)}
+    if f == "reg_zeroth": return {}
+    if f == "reg_bz_weights": return {"pixel_signals": mk(np.abs(sv) % 3)}
+    if f == "reg_bz_matrix": return {"regularization_weights": mk(np.abs(sv) + 1)}
     if f == "reg_weighted": return {"regularization_weights": mk(np.abs(sv) + 1), "neighbors": nb, "neighbors_sizes": np.full(n, 2, dtype=np.int64)}
     if f == "reg_weights": return {"pixel_signals": mk(np.abs(sv) % 2)}
     raise ValueError(f)
@@ -1739,6 +2291,7 @@ def util_call(inp, a, settings):
     from autoarray.inversion.regularization import regularization_util
     from autoarray.util import fnnls
     f = inp["fn"]
+    poison_next()
     try:
         if f == "positive_only":
             kw = {} if settings is None else {"settings": settings}       # omitted: the signature's default SettingsInversion()
@@ -1758,6 +2311,10 @@ def util_call(inp, a, settings):
                                                                                    noise_map=a["noise_map"])
         elif f == "reg_constant": r = regularization_util.constant_regularization_matrix_from(coefficient=2.0, **a)
         elif f == "reg_weighted": r = regularization_util.weighted_regularization_matrix_from(**a)
+        elif f == "reg_zeroth": r = regularization_util.zeroth_regularization_matrix_from(coefficient=1.5, pixels=inp["n"])
+        elif f == "reg_constant_zeroth": r = regularization_util.constant_zeroth_regularization_matrix_from(coefficient=2.0, coefficient_zeroth=0.5, **a)
+        elif f == "reg_bz_weights": r = regularization_util.brightness_zeroth_regularization_weights_from(coefficient=2.0, **a)
+        elif f == "reg_bz_matrix": r = regularization_util.brightness_zeroth_regularization_matrix_from(**a)
         elif f == "reg_weights": r = regularization_util.adaptive_regularization_weights_from(inner_coefficient=2.0, outer_coefficient=0.5, **a)
         else: raise ValueError(f)
         return np.array(r, dtype=float)
@@ -1798,7 +2355,7 @@ def run_util(inp):
     if bad: res["detail"] = "; ".join(bad[:4])
     return res
 UTIL_FNS = ["positive_only", "positive_only", "positive_only", "fnnls", "fnnls", "positive_negative", "mirrored", "curvature", "mapped_recon",
-            "data_vector", "reg_constant", "reg_weighted", "reg_weights"]
+            "data_vector", "reg_constant", "reg_weighted", "reg_weights", "reg_zeroth", "reg_constant_zeroth", "reg_bz_weights", "reg_bz_matrix"]
 def gen_util(rng, k):
     f = UTIL_FNS[k % len(UTIL_FNS)]
     n = rng.randint(1, 5); m = rng.randint(1, 6)
@@ -1968,7 +2525,7 @@ def gen_share(rng):
 
 def run_case(inp):
     r = run_case0(inp)
-    if r.get("coq") and not r["coq"].startswith(("(KGraph", "(KShare")): r["coq"] = "(KA " + r["coq"] + ")"
+    if r.get("coq") and not r["coq"].startswith(("(KGraph", "(KShare", "(KRemask")): r["coq"] = "(KA " + r["coq"] + ")"
     return r
 def run_case0(inp):
     op = inp["op"]
@@ -1984,6 +2541,8 @@ def run_case0(inp):
     if op == "gcase": return run_gcase(inp)
     if op == "util": return run_util(inp)
     if op == "share": return run_share(inp)
+    if op == "determ": return run_determ(inp)
+    if op == "remask": return run_remask(inp)
     raise ValueError(op)
 
 # ----------------------------------------------------------------------------- generators
@@ -2352,8 +2911,12 @@ def gen_inputs(tier, rng):
     for k in range(300 if big else 36): yield gen_gcase(rng, k % 6)
     # PART E: argument objects (OverSamplingDataset) shared between dataset constructors / apply_over_sampling calls / omitted
     for k in range(400 if big else 40): yield gen_share(rng)
+    # re-masking chains on fully specified Imaging datasets (noise covariance matrix ...), each dataset vs its history-free twin
+    for k in range(400 if big else 44): yield gen_remask(rng, k)
+    # structure queries called three times on equal inputs with the heap dirtied in between; windows leaving the frame vs a reference
+    for k in range(1200 if big else 120): yield gen_determ(rng, k)
     # util functions (solvers first) called directly with caller-owned arrays: C / Fortran order, float64 / int64 / float32
-    for k in range(520 if big else 52): yield gen_util(rng, k)
+    for k in range(680 if big else 68): yield gen_util(rng, k)
     for k in range(120 if big else 18):
         H, W = rng.randint(2, 4), rng.randint(2, 4)
         vias = ["simulator", "poisson", "gaussian", "interferometer"]
